@@ -306,9 +306,9 @@ def build():
     plan.assumptions += [
         "protobuf header lists and the session caches as ghost records / symbolic maps; sizes as integers (the cached heights are ints; stored sizes "
         "are transported unchanged); floor(border allowance) as an uninterpreted function of the row/column",
-        "GEOMETRY-STABLE is about the reader's formula floor(round(s) + b) with Python's round returning an integer: the reader itself (float "
-        "arithmetic over protobuf fields) is exercised by the stand-in only",
-        "names, captions, header counts, coordinates: bounded stand-in only",
+        "GEOMETRY-STABLE is about the reader's formula floor(round(s) + b) with Python's round returning an integer; that row_height / col_width "
+        "compute exactly this formula is their contract (under A-REAL); the effect of machine rounding in the reader is exercised by the stand-in only",
+        "names, captions, coordinates: bounded stand-in only; header counts: frame obligation (assigned only in their setters) + stand-in",
     ]
     plan.trusted += ["pyvc AST->SMT translation (cross-checked against CPython)", "z3 5.1.0", "cvc5 1.0.3"]
     plan.level = "other"
